@@ -134,6 +134,15 @@ CHECKS = {
         'formula strings with array literals / array variables / chained products through evaluator(); MatrixGrader with negative_powers=False; independent numpy reference for products and powers.',
    note=PROOF_NOTE + ' Partial: np.linalg.matrix_power / inverse numerics are compared within 1e-9 (the model\'s exact Gauss-Jordan inverse is tied by comparison, its correctness is not a theorem); scalar powers with non-integer exponents are outside the model.',
    technique='Lean 4 proof (shape decision theorems for every operator, for all shapes) + exhaustive shape-lattice correspondence + numpy reference oracle', design='§6 C14'),
+ 'C12': dict(
+   text='Sampling sets modelled as deterministic functions of the random draws: RealInterval (bound swap, start + (stop-start)u), IntegerRange (the request [start, stop+1) to the RNG), ComplexRectangle, ComplexSector (polar pair), DiscreteSet / SpecificFunctions (index draw), RandomFunction (center + amplitude/(num_terms*input_dim) * sum A*sin), '
+        'SquareMatrices.apply_symmetry on entry lists and the constructor acceptance table with the make_det_one branch choice; proved for every draw in the RNG\'s documented range and every parameter: interval samples lie between the bounds whatever their order, both integer endpoints are attainable and nothing outside is, rectangle and sector components lie in their ranges, only listed members are returned, '
+        '|f(x) - center| <= amplitude for every input dimension and number of terms (the statement that exposed F5), arity enforced; over Mathlib matrices: A+A^T symmetric, A-A^T antisymmetric and traceless, A+A^H hermitian, A-A^H antihermitian, the traceless projection has trace 0 and keeps symmetry, rescaling keeps symmetry, dividing by an n-th root of the determinant gives determinant 1 (odd-dimension negative branch too), '
+        'zeroing a diagonal entry gives determinant 0, real antisymmetric matrices of odd dimension have determinant 0; every accepted constructor combination asking for determinant 1 reaches a defined branch, the rejected ones are the documented impossibilities. '
+        'Tie: scripted RNG through the scalar samplers (exact), apply_symmetry on exact dyadic arrays for all symmetry x traceless, the whole constructor grid (dimension 2-5 x symmetry x traceless x determinant x complex) against the model with monitored draws of all 214 accepted combinations (shape, realness, symmetry, trace, determinant, norm), '
+        'vector/matrix/tensor/triangular/identity-multiple samplers, random functions (amplitudes read from the closure; value compared with the model formula, bound, fixedness, arity, output dimension).',
+   note=PROOF_NOTE + ' Partial: the RNG, np.linalg.det/eigvals numerics and the retry loop are not modelled (monitored within 1e-7); the matrix-algebra theorems are Mathlib statements about the operations apply_symmetry / make_det_one perform, tied to the code through the executable entry-list model by comparison; Orthogonal/Unitary samplers need scipy and are excluded.',
+   technique='Lean 4 proof (interval arithmetic, triangle-inequality bound, Mathlib matrix algebra, decide over the constructor table) + scripted-RNG correspondence + contract monitor on real draws', design='§6 C12'),
  'C11': dict(
    text='ItemGrader.__call__ / AbstractGrader.__call__ modelled as a state machine over the grader object (stored answers, inferring flag, log flag, debug log) with validation, text check and grading as parameters; proved by induction over ANY call history '
         '(including calls that raise in validation, in the input check or in grading): the next call returns what a freshly constructed grader returns for the current expect value or the last successfully supplied one; '
